@@ -27,7 +27,7 @@ impl Property for C12 {
         "C12"
     }
     fn rule(&self) -> &'static str {
-        "anchor: external check value 0x0376E6E7 of '123456789'; bytepos: for a seeded random message (label length 0/3/6) every byte position of total length, protocol type, label and the first 64 PDU bytes takes all 256 values (each value selects a distinct table index at that position) and DefaultCrc is compared with a bit-serial reference; lengths: PDU lengths from the size lattice up to 65535; random: seeded messages; sender/receiver: fragment trains built by the real encapsulator (one in three through encap_ext with an extension chain, incl. re-use substituted first fragments) with a recording CrcCalculator on both sides, trailer compared with the reference, receiver accepts iff trailer == reference (also when its label memory is reset between two fragments); rx-handmade: hand-made trains sealed conformantly or with the wrong label rule (explicit label sealed as if re-used, re-use fragment sealed with the full label). Non-trivial = the reference and the crate both produced a value and were compared; fingerprint = hash of the full CRC input (or of the train)."
+        "anchor: external check value 0x0376E6E7 of '123456789'; bytepos: for a seeded random message (label length 0/3/6) every byte position of total length, protocol type, label and the first 64 PDU bytes takes all 256 values (each value selects a distinct table index at that position) and DefaultCrc is compared with a bit-serial reference; lengths: PDU lengths from the size lattice up to 65535; random: seeded messages; sender/receiver: fragment trains built by the real encapsulator (half of them after a label-memory pre-history: re-use limit just reached, or re-use disabled after traffic with the same label; one in three through encap_ext with an extension chain, incl. re-use substituted first fragments) with a recording CrcCalculator on both sides, trailer compared with the reference, receiver accepts iff trailer == reference (also when its label memory is reset between two fragments); rx-handmade: hand-made trains sealed conformantly or with the wrong label rule (explicit label sealed as if re-used, re-use fragment sealed with the full label). Non-trivial = the reference and the crate both produced a value and were compared; fingerprint = hash of the full CRC input (or of the train)."
     }
     fn gens(&self, cx: &Cx) -> Vec<Gen> {
         vec![
@@ -240,6 +240,8 @@ impl Property for C12 {
                 let nchain = 1 + rng.below(3);
                 let chain_final = rng.chance(1, 4);
                 let chain = gen_chain(&mut rng, nchain, chain_final);
+                // (a mandatory data block above 255 bytes cannot be described to a real receiver's manager)
+                let use_ext = use_ext && !chain.entries.iter().any(|e| e.id < 0x100 && e.data.len() > 255);
                 let ptype = if use_ext && chain_final { chain.entries.last().unwrap().id } else { gen_user_ptype(&mut rng) };
                 let plen = match rng.below(10) {
                     0 => rng.range(4096, 12000),
@@ -252,6 +254,37 @@ impl Property for C12 {
                 let txcrc = RecCrc::new();
                 let mut enc = Encapsulator::new(txcrc.clone());
                 let mut prime: Option<Vec<u8>> = None;
+                // label-memory pre-histories after which the label must be written IN FULL although it is the label
+                // of the preceding packet: (2) the re-use limit has just been reached, (3) re-use was disabled
+                // after traffic with this label
+                let pre = if label != Label::Broadcast { rng.below(4) } else { 0 };
+                let mut pre_pkts: Vec<Vec<u8>> = Vec::new();
+                if pre >= 2 {
+                    let n = 1 + rng.below(3);
+                    if pre == 2 {
+                        enc.enable_re_use_label_with_max_consecutive(n as u8);
+                    }
+                    let reps = if pre == 2 { n + 1 } else { 1 + rng.below(3) };
+                    for _ in 0..reps {
+                        let mut b = vec![0u8; 64];
+                        match enc_guard(&mut enc, b"", 0, EncapMetadata::new(0x0800, label), &mut b) {
+                            Ok(Ok(s)) => {
+                                let (k, _) = status_parts(&s);
+                                b.truncate(k);
+                                pre_pkts.push(b);
+                            }
+                            _ => {
+                                rep.count("sender.prehistory-failed");
+                                return;
+                            }
+                        }
+                    }
+                    if pre == 3 {
+                        enc.disable_re_use_label();
+                    }
+                    rep.count(&format!("sender.prehistory{}", pre));
+                }
+                let substituted = substituted && pre < 2;
                 if substituted {
                     // previous complete packet with the same label so that the first fragment uses re-use
                     let mut b = vec![0u8; 64];
@@ -385,6 +418,18 @@ impl Property for C12 {
                     }
                     let rxcrc = RecCrc::new();
                     let mut dec = mon_dec(4, pdu.len(), &[pdu.len() + 1, pdu.len() + 2, pdu.len() + 3], table.clone(), rxcrc.clone());
+                    for pp in &pre_pkts {
+                        match dec_guard(&mut dec, pp) {
+                            Ok(Ok((DecapStatus::CompletedPkt(b, _), _))) => {
+                                give_back(&mut dec, b);
+                            }
+                            _ => {
+                                rep.count("receiver.prehistory-rejected");
+                                return;
+                            }
+                        }
+                    }
+                    rxcrc.take();
                     if let Some(p) = &prime {
                         match dec_guard(&mut dec, p) {
                             Ok(Ok((DecapStatus::CompletedPkt(b, _), _))) => {
